@@ -30,6 +30,13 @@ Theorem C11_tick_coalescing_sound : forall ma n1 n2 b, n1 <= n2 ->
   bucket_expire ma n2 (bucket_expire ma n1 b) = bucket_expire ma n2 b.
 Proof. exact expire_expire. Qed.
 
+(* the `bursts` correspondence stream replays recorded handler orders with dynamic report
+   subscriptions through prun2; its requests are exactly those of the pstep sequence, so
+   C11_sum_and_bounds applies to every such replay *)
+Theorem C11_subscriptions_do_not_influence_requests : forall ma1 ma2 h sb st,
+  somes (map fst (prun2 ma1 ma2 sb st h)) = map snd (requests ma1 ma2 st (strip h)).
+Proof. intros. apply prun2_requests. Qed.
+
 (* FINDING F7 (repaired by the `fix:` commit in /repo): the behaviour before the fix treated a
    group whose target did not change as absent.  Witness: op target 70, regular target 20,
    bounds shrink to [-100, 60]: the request was 60 while the stored targets are 20 + 60. *)
@@ -59,4 +66,5 @@ Print Assumptions C11_sum_and_bounds.
 Print Assumptions C11_step.
 Print Assumptions C11_reports_current.
 Print Assumptions C11_tick_coalescing_sound.
+Print Assumptions C11_subscriptions_do_not_influence_requests.
 Print Assumptions C11_F7_before_fix_refuted.
